@@ -2,6 +2,7 @@ package rules
 
 import (
 	"go/ast"
+	"go/token"
 	"go/types"
 	"strings"
 
@@ -22,6 +23,8 @@ func init() {
 			"ExecutionEngine.Execute reaches planning only through the success edges of normalization (when needed), then of ValidateForSchema (err == nil ∧ Valid), and reaches the resolver only when planning reported no error; ValidateForSchema validates with DefaultOperationValidator and the validator reports Invalid whenever the report has errors. " +
 			"It does not decide accept ⇔ spec-valid for all documents (that is the rules' own logic).",
 		Mutants: []Mutant{
+			{Name: "validation memo ignores the validator options (seeded change C04-13)", File: gqlValidateGo, Rule: "C04-R4", Key: "memo-only-without-options",
+				Old: "\tif useCache {\n\t\tr.validForSchema[schemaHash] = result\n\t}\n", New: "\tr.validForSchema[schemaHash] = result\n"},
 			{Name: "KnownArguments rule dropped from the default validator", File: opValidationGo, Rule: "C04-R1", Key: "KnownArguments",
 				Old: "\tvalidator.RegisterRule(KnownArguments())\n", New: ""},
 			{Name: "new operation rule offered but not registered", File: "v2/pkg/astvalidation/operation_rule_variable_uniqueness.go", Rule: "C04-R1", Key: "VariableUniquenessStrict",
@@ -219,6 +222,83 @@ func runC04(r *fw.Run) {
 		})
 		r.Check(usesDefault && otherCtor == "" && validated, "C04-R4", fi.Name()+"/uses-default-validator", fi.Pos(), "ValidateForSchema validates with astvalidation.DefaultOperationValidator",
 			"the request is validated with a hand-assembled rule list ("+otherCtor+") instead of the default validator: spec rules are silently missing from admission")
+
+		// the per-request memo is keyed by the schema hash only: it may be consulted and filled only when no validator
+		// options were given (added after a seeded change removed that guard: a verdict computed under relaxed options was
+		// returned for the default options, and vice versa)
+		sig := fi.Obj.Type().(*types.Signature)
+		var opts *types.Var
+		if sig.Variadic() {
+			opts = sig.Params().At(sig.Params().Len() - 1)
+		}
+		isNoOpts := func(e ast.Expr) bool {
+			be, ok := ast.Unparen(e).(*ast.BinaryExpr)
+			if !ok || be.Op != token.EQL {
+				return false
+			}
+			c, ok := ast.Unparen(be.X).(*ast.CallExpr)
+			if !ok || fw.Builtin(ginfo, c) != "len" || len(c.Args) != 1 {
+				return false
+			}
+			id, ok := ast.Unparen(c.Args[0]).(*ast.Ident)
+			cv, isC := fw.ConstVal(ginfo, be.Y)
+			return ok && opts != nil && ginfo.Uses[id] == opts && isC && cv == "0"
+		}
+		flags := map[types.Object]bool{}
+		fw.WalkAll(fi.Decl.Body, func(n ast.Node) bool {
+			if as, ok := n.(*ast.AssignStmt); ok && len(as.Lhs) == len(as.Rhs) {
+				for i, l := range as.Lhs {
+					if id, ok := l.(*ast.Ident); ok && isNoOpts(as.Rhs[i]) {
+						if o := ginfo.Defs[id]; o != nil {
+							flags[o] = true
+						}
+					}
+				}
+			}
+			return true
+		})
+		nMemo := 0
+		in := fw.NewInterp(fi)
+		in.H = fw.Hooks{
+			Cond: func(e ast.Expr, branch bool, st *fw.State) {
+				if !branch {
+					return
+				}
+				if isNoOpts(e) {
+					st.Set("no-options")
+				}
+				if id, ok := ast.Unparen(e).(*ast.Ident); ok && flags[ginfo.Uses[id]] {
+					st.Set("no-options")
+				}
+			},
+			Node: func(n ast.Node, st *fw.State) {
+				ix, ok := n.(*ast.IndexExpr)
+				if as, isAs := n.(*ast.AssignStmt); isAs { // a store: the interpreter delivers the statement, not its left-hand side
+					for _, l := range as.Lhs {
+						if lx, isIx := ast.Unparen(l).(*ast.IndexExpr); isIx {
+							ix, ok = lx, true
+						}
+					}
+				}
+				if !ok || !fw.IsFieldSel(ginfo, ix.X, "graphql", "Request", "validForSchema") || !in.Final() {
+					return
+				}
+				nMemo++
+				// a key that is computed from the options would do as well
+				keyFromOpts := false
+				if opts != nil {
+					d := fw.NewPureDeriver(fi)
+					keyFromOpts = d.Derives(ix.Index, func(e ast.Expr) bool {
+						id, ok := e.(*ast.Ident)
+						return ok && ginfo.Uses[id] == opts
+					})
+				}
+				r.Check(opts == nil || st.Must("no-options") || keyFromOpts, "C04-R4", fi.Name()+"/memo-only-without-options", p.Pos(ix.Pos()), "the validation memo of the request is used only when no validator options are given (or its key covers them)",
+					"the memo is keyed by the schema hash alone but is read/written for a validation with options: the verdict computed under one set of validator options (e.g. relaxed nullability) is returned for another — a spec-invalid operation is accepted, or a valid one rejected, depending on what was validated before")
+			},
+		}
+		in.Run(nil)
+		r.Expect("C04-R4", "accesses of the validation memo", nMemo, 2)
 	}
 }
 
